@@ -272,6 +272,32 @@ example : IsChain ac bk [1, 2, 3] ∧ IsChain ac bk [7, 8] := by
 example : sortReflexive ac bk [8, 3, 7, 1, 2] 5 = [7, 8, 1, 2, 3] ∧ sortReflexive bk ac [8, 3, 7, 1, 2] 5 = [8, 7, 3, 2, 1] := by
   decide
 
+/-- `sort_chains` APPLIED: its five hypotheses hold for these two chains and this set order -/
+example : sortReflexive ac bk [8, 3, 7, 1, 2] 5 = [[7, 8], [1, 2, 3]].flatten :=
+  sort_chains ac bk [8, 3, 7, 1, 2] [[7, 8], [1, 2, 3]] 5
+    (by
+      intro c hc
+      simp only [List.mem_cons, List.not_mem_nil, or_false] at hc
+      rcases hc with rfl | rfl
+      · refine ⟨by simp, ?_, ?_, ?_⟩ <;> simp [Adj, Succ, ac, bk]
+      · refine ⟨by simp, ?_, ?_, ?_⟩ <;> simp [Adj, Succ, ac, bk])
+    (by decide)
+    (by
+      intro c hc
+      simp only [List.mem_cons, List.not_mem_nil, or_false] at hc
+      rcases hc with rfl | rfl <;> simp)
+    (by intro x; exact List.Perm.mem_iff (by decide))
+    (by decide)
+
+/-- a ring 1 → 2 → 3 → 1 (`bkR` leads around, `acR` is its inverse) -/
+def bkR : Inst → Option Inst := fun x => if x = 1 then some 2 else if x = 2 then some 3 else if x = 3 then some 1 else none
+def acR : Inst → Option Inst := fun x => if x = 2 then some 1 else if x = 3 then some 2 else if x = 1 then some 3 else none
+
+/-- `sort_ring` APPLIED: the set [2, 3, 1] comes back once around from its first member -/
+example : sortReflexive acR bkR [2, 3, 1] 3 = [2, 3, 1] :=
+  sort_ring acR bkR [2, 3, 1] 2 [3, 1] 3 rfl (by simp [Adj, Succ, acR, bkR]) (by intro z hz; simp at hz; subst hz; rfl)
+    (by decide) (by simp) (by intro x hx; exact hx) (by intro x hx; simp at hx; rcases hx with rfl | rfl | rfl <;> rfl)
+
 /-! non-vacuity of the state-level theorems: a one-to-one reflexive association R1 on class 0 with the phrases
     "succeeds" / "precedes", three instances linked 0 — 1 — 2 by a history in C02's domain -/
 def aR : AssocSpec :=
